@@ -602,3 +602,106 @@ theorem viaTranspose_eq_spec (cast : R → R) (m : Mode) (f : Img R) (axis : Nat
 
 end semiring
 end Mahotas.C06
+
+/-! ### the branch `axis == ndim − 1`: no transposition, the kernel writes into `out.reshape(f.shape)` -/
+
+namespace Mahotas.C06
+open Mahotas
+
+section lastaxis
+variable {α : Type} [Add α] [Mul α] [Zero α]
+
+/-- the branch `if axis == len(tshape) - 1` of the Python fast path: `indices` is the identity, the C
+    kernel writes straight into `out.reshape((-1, N))` — a 2-D view of the C-contiguous `out` —, so `out`
+    is the 2-D buffer read with the shape of `f` -/
+def convolve1dLastAxis (cast : α → α) (m : Mode) (f : Img α) (w : Array α) : Img α :=
+  let axis := f.shape.length - 1
+  let N0 := shapeSize (otherShape f.shape axis)
+  let N1 := f.shape.getD axis 1
+  reshapeImg f.shape (tmpOfWrites cast N0 N1 (fastWrites m (rowsView f axis) w N0 N1))
+
+end lastaxis
+
+theorem ravelI_unravelI (s : List Nat) (i : Nat) (h : i < shapeSize s) : ravelI s (unravelI s i) = i := by
+  induction s generalizing i with
+  | nil => simp [shapeSize] at h; simp [ravelI, h]
+  | cons d ds ih =>
+    simp only [shapeSize] at h
+    have hS : 0 < shapeSize ds := by
+      rcases Nat.eq_zero_or_pos (shapeSize ds) with h0 | h0
+      · rw [h0] at h; simp at h
+      · exact h0
+    rw [unravelI_cons]
+    simp only [ravelI, Int.ofNat_eq_natCast, Int.toNat_natCast]
+    rw [ih _ (Nat.mod_lt _ hS)]
+    exact Nat.div_add_mod' i (shapeSize ds)
+
+/-- a well-formed image is the list of its values in C scan order -/
+theorem toList_eq_map_getD {β : Type} (im : Img β) (d : β) (h : im.data.size = shapeSize im.shape) :
+    im.data.toList = (allPos im.shape).map fun p => im.getD p d := by
+  apply List.ext_getElem
+  · simp [allPos, h]
+  · intro i h1 h2
+    have hi : i < shapeSize im.shape := by simpa [allPos] using h2
+    simp only [allPos, List.getElem_map, List.getElem_range, Img.getD, unravelI_inside _ _ hi, if_true,
+      ravelI_unravelI _ _ hi]
+    rw [Array.getD_eq_getD_getElem?]
+    simp [h, hi]
+
+theorem moveLast_last (k : Nat) : moveLast (k + 1) k = List.range (k + 1) := by
+  unfold moveLast otherAxes
+  rw [List.range_succ, List.filter_append]
+  have h1 : (List.range k).filter (fun a => decide (a ≠ k)) = List.range k := by
+    apply List.filter_eq_self.2
+    intro a ha
+    have := List.mem_range.1 ha
+    simp; omega
+  rw [h1]
+  simp
+
+section semiring
+variable {R : Type} [CommSemiring R]
+
+/-- for the last axis the way back is a plain reshape -/
+theorem unrowsView_last (s : List Nat) (axis : Nat) (h : axis + 1 = s.length) (tmp : Img R) :
+    ∀ p, inside s p = true → (unrowsView s axis tmp).getD p 0 = (reshapeImg s tmp).getD p 0 := by
+  intro p hp
+  have hperm := moveLast_perm s.length axis (by omega)
+  have hid : moveLast s.length axis = List.range s.length := by rw [← h]; exact moveLast_last axis
+  have hback := transposeImg_invPerm (moveLast s.length axis) s hperm
+    (reshapeImg ((moveLast s.length axis).map fun a => s.getD a 1) tmp) rfl
+  unfold unrowsView
+  rw [hback.2 p hp, hid, range_map_getD_self s _ 1 rfl, range_map_getD_self p _ 0 (inside_length _ _ hp)]
+
+theorem lastAxis_eq_spec (cast : R → R) (m : Mode) (f : Img R) (w : Array R) (hn : 0 < f.shape.length)
+    (hw : w.size < f.shape.getD (f.shape.length - 1) 1) :
+    (convolve1dLastAxis cast m f w).shape = f.shape ∧
+    (convolve1dLastAxis cast m f w).data.toList =
+      (allPos f.shape).map fun p =>
+        cast (convSpec m f (embedShape f.shape.length (f.shape.length - 1) w.size) w p) := by
+  refine ⟨rfl, ?_⟩
+  have hax : f.shape.length - 1 < f.shape.length := by omega
+  have hsz : (convolve1dLastAxis cast m f w).data.size = shapeSize (convolve1dLastAxis cast m f w).shape := by
+    show (reshapeImg f.shape _).data.size = shapeSize f.shape
+    have h1 : shapeSize f.shape = shapeSize (otherShape f.shape (f.shape.length - 1) ++
+        [f.shape.getD (f.shape.length - 1) 1]) := by
+      rw [← transposed_shape]
+      have hid : moveLast f.shape.length (f.shape.length - 1) = List.range f.shape.length := by
+        have := moveLast_last (f.shape.length - 1)
+        rwa [Nat.sub_add_cancel hn] at this
+      rw [hid, range_map_getD_self f.shape _ 1 rfl]
+    rw [h1, shapeSize_concat]
+    simp [reshapeImg, tmpOfWrites, allPos, shapeSize]
+  rw [toList_eq_map_getD _ 0 hsz]
+  show (allPos f.shape).map _ = _
+  apply List.map_congr_left
+  intro p hp
+  have hp' := mem_allPos _ _ hp
+  have h := unrowsView_last f.shape (f.shape.length - 1) (by omega)
+    (tmpOfWrites cast (shapeSize (otherShape f.shape (f.shape.length - 1))) (f.shape.getD (f.shape.length - 1) 1)
+      (fastWrites m (rowsView f (f.shape.length - 1)) w (shapeSize (otherShape f.shape (f.shape.length - 1)))
+        (f.shape.getD (f.shape.length - 1) 1))) p hp'
+  exact h.symm.trans (viaTranspose_getD cast m f (f.shape.length - 1) w hax hw p hp')
+
+end semiring
+end Mahotas.C06
